@@ -163,13 +163,16 @@ def build_cases(rng, tier):
 
 def evaluate(ctx, name, evs, outs, shard=25):
     terms = [hist.cq_case(e, o) for e, o in zip(evs, outs)]
-    defs = {"SM": "spec_accepts", "PF": "spec_accepts_prefix_on_error"}
+    # SM: strict (an error is only acceptable when the specification refuses the statement too);
+    # SN: normal (used for CREATE TABLE, which the engine also refuses for catalog limits the plain
+    # specification does not know: a VARCHAR length outside INT, a name too long for a catalog row)
+    defs = {"SM": "spec_accepts_strict", "SN": "spec_accepts", "PF": "spec_accepts_prefix_on_error"}
     if ctx.model_ok:
         defs["MM"] = "model_agrees"
     okc, res, lg = vlib.run_coq_cases(name, HEADER, terms, "hcase", defs, shard=shard)
     if not okc:
         raise RuntimeError("coq evaluation failed: " + lg[-3000:])
-    return res.get("MM", []), res["SM"], res["PF"]
+    return res.get("MM", []), res["SM"], res["PF"], res["SN"]
 
 
 def run(ctx):
@@ -179,7 +182,8 @@ def run(ctx):
         cases = build_cases(ctx.rng, ctx.tier)
     evs = [c[2] for c in cases]
     outs = hist.run_histories(ctx, evs)
-    mm, sm, pf = evaluate(ctx, "c14", evs, outs)
+    mm, sm_strict, pf, sn = evaluate(ctx, "c14", evs, outs)
+    sm = sorted(set(sn) | {i for i in sm_strict if not cases[i][0].startswith("create/")})
     kinds = {}
     failed_as_expected = 0
     for (kind, k, e, npre), o in zip(cases, outs):
